@@ -118,7 +118,8 @@ CLAIMS['C01'] = {
              'callers that free only a part of a block under interleavings (K1 lives there) are outside the all-interleavings theorems (held blocks are '
              'also proved to lie inside the managed range, and drain may be interleaved); explored by scheduler-controlled runs of the real threads (preemption-bounded DFS '
              '+ random schedules) whose event traces are replayed on the Lean interleaving semantics.'
-             ' Theorem single_row_updates_match_source: the mask and the update closure of Bitfield::toggle for orders 0..2 (the step that claims/releases the bits of a block inside one row, e.g. for a targeted allocation) and the mask test of Bitfield::is_zero are regenerated from core/src/bitfield.rs on every run by the translator (Gen/Toggle.lean) and proved equal to the model\'s.'),
+             ' Theorem single_row_updates_match_source: the mask and the update closure of Bitfield::toggle for orders 0..2 (the step that claims/releases the bits of a block inside one row, e.g. for a targeted allocation) and the mask test of Bitfield::is_zero are regenerated from core/src/bitfield.rs on every run by the translator (Gen/Toggle.lean) and proved equal to the model\'s.'
+             ' Theorem conc_blocks_disjoint_with_tree_changes: the disjointness/alignment/range statement for every interleaving also when the threads call change_tree (class changes, Offline) among their other calls.'),
     'note': TB + ' Upper-level theorems hold for configurations satisfying CfgOk (class ids < 8, ordered policy, tree size < 2^19: every configuration of the repository; derived from elementary checks by CfgOk.of_checks); they depend on the C23 theorem (bv_decide axioms) through the lower search.',
     'technique': 'Lean 4 refinement proof (all sequential histories) + rely/guarantee ownership invariants over the single-access interleaving semantics (bitfields and the whole lower allocator, all schedules, any number of threads) + trace co-simulation of real threads with an ownership oracle',
 }
@@ -203,7 +204,8 @@ CLAIMS['C05'] = {
              'from any contents of the volatile arrays.' + PART +
              'call sequences that free part of a huge allocation (partial_put_huge, K1) are outside the theorems: crash points '
              'before atomic writes of explored schedules are recovered with the real code and checked (held blocks allocated and freeable, frames '
-             'allocated by the setup still allocated, accounting consistent).'),
+             'allocated by the setup still allocated, accounting consistent).'
+             ' Theorem conc_crash_anywhere_with_tree_changes: a crash at any instant of any interleaving of public calls and change_tree calls (class changes, Offline) leaves a legal crash image; recovery keeps every holding allocated (tree changes touch only volatile state).'),
     'note': TB + ' A crash is modelled as loss of everything but the lower buffer at an atomic-access boundary.',
     'technique': 'Lean 4 proof of the recovery program from every weak-invariant state + rely/guarantee invariant showing every state of every interleaving of lower-level calls is such a state + crash-point oracle inside the trace co-simulation + sequential differential of recover',
 }
